@@ -407,7 +407,12 @@ def main_wrapper(fn):
         # of behaviour, i.e. a verdict; one raised by harness code is a bug of the harness and never a verdict.
         frames = traceback.extract_tb(e.__traceback__)
         inner = frames[-1].filename if frames else ""
-        from_library = inner.startswith(os.path.join(REPO, "python")) or type(e).__module__.split(".")[0] in ("tskit", "_tskit")
+        # ... or raised further down (standard library, numpy) while library code was running: some frame below the last harness frame
+        # belongs to the library
+        libdir = os.path.join(REPO, "python")
+        last_harness = max([i for i, f in enumerate(frames) if f.filename.startswith(VERIF)], default=-1)
+        below_library = any(f.filename.startswith(libdir) for f in frames[last_harness + 1:])
+        from_library = inner.startswith(libdir) or below_library or type(e).__module__.split(".")[0] in ("tskit", "_tskit")
         if from_library:
             pid = os.path.basename(sys.argv[0]).replace(".py", "").upper() if sys.argv and sys.argv[0] else "C??"
             try:
